@@ -8,6 +8,8 @@ from depsim.runner import Violation, add_set, bump, digest
 
 class C01(ParserSessionProp):
     id = 'C01'
+    scale_every = {'quick': 150, 'thorough': 80}
+    stress_every = {'quick': 400, 'thorough': 150}
     families = FAMILIES_UNIFORM
     max_len = 6
     nbest_choices = (1, 1, 1, 2, 4)      # the first parse of an n-best list must be optimal too; every pop is monitored
